@@ -2,8 +2,8 @@
 """Runs checks against every seeded change in a scratch worktree of /repo (never in /repo itself) and records in
 seeded/<name>/meta.json which checks caught it.  Usage: seed_matrix.py [--all-checks] [name ...]"""
 import sys, os, json, subprocess, glob, shutil
-ROOT = '/verif'
-WT = '/tmp/matrix/repo'
+ROOT = os.path.dirname(os.path.dirname(os.path.abspath(__file__)))
+WT = '/tmp/matrix-%d/repo' % os.getpid()
 ALL = ['C%02d' % i for i in range(2, 21)]
 CHEAP = ['C02', 'C03', 'C04', 'C05', 'C06', 'C07', 'C08', 'C09', 'C10', 'C11', 'C12', 'C13', 'C14', 'C16', 'C17', 'C18', 'C19', 'C20']
 
@@ -14,12 +14,12 @@ def main():
     args = sys.argv[1:]
     allc = '--all-checks' in args
     names = [a for a in args if not a.startswith('--')] or sorted(os.path.basename(d) for d in glob.glob(ROOT + '/seeded/*'))
-    os.makedirs('/tmp/matrix', exist_ok=True)
+    os.makedirs(os.path.dirname(WT), exist_ok=True)
     if os.path.exists(WT):
         sh('git -C /repo worktree remove --force %s' % WT)
     sh('git -C /repo worktree add --detach %s HEAD' % WT)
-    env = dict(os.environ, VERIF_REPO=WT, VERIF_NOEVIDENCE='1', VERIF_WORK='/tmp/matrix/work',
-               VERIF_REPL='/tmp/matrix/replays', VERIF_CPUS=os.environ.get('VERIF_CPUS', '8'))
+    env = dict(os.environ, VERIF_REPO=WT, VERIF_NOEVIDENCE='1', VERIF_WORK=os.path.dirname(WT) + '/work',
+               VERIF_REPL=os.path.dirname(WT) + '/replays', VERIF_CPUS=os.environ.get('VERIF_CPUS', '8'))
     try:
         for name in names:
             d = os.path.join(ROOT, 'seeded', name)
@@ -51,7 +51,9 @@ def main():
             print(name, 'own=%s' % own, 'caught_by=%s' % caught, 'missed=%s' % missed, 'exit2=%s' % broken, flush=True)
     finally:
         sh('git -C /repo worktree remove --force %s' % WT)
-        shutil.rmtree('/tmp/matrix', ignore_errors=True)
+        shutil.rmtree(os.path.dirname(WT), ignore_errors=True)
+        json.dump({n: json.load(open(os.path.join(ROOT, 'seeded', n, 'meta.json'))).get('caught_by') for n in names},
+                  open(os.path.join(ROOT, 'matrix_result.json'), 'w'), indent=1)
 
 if __name__ == '__main__':
     main()
